@@ -137,6 +137,7 @@ type faceM struct {
 }
 
 type inRec struct {
+	nonceUnsure bool // a later Interest from this face may or may not have replaced the nonce
 	nonce     uint32
 	tokens    [][]byte
 	mustUntil time.Duration // strictly before this instant the record is certainly held
@@ -675,7 +676,7 @@ func (r *runner) doInterest(op *Op) {
 	loopFrom := uint64(0)
 	if ent != nil && ent.satisfiedAt < 0 {
 		for f, rec := range ent.in {
-			if f != op.Face && rec.clean && rec.nonce == nonce && now < rec.mustUntil {
+			if f != op.Face && rec.clean && !rec.nonceUnsure && rec.nonce == nonce && now < rec.mustUntil {
 				loopFrom = f
 			}
 		}
@@ -917,10 +918,17 @@ func (r *runner) doInterest(op *Op) {
 		rec.tokens = append(rec.tokens, tok)
 		if accepted {
 			rec.nonce = nonce
+			rec.nonceUnsure = false
 			rec.mustUntil = now + life
 			rec.clean = true
-		} else if now+life < rec.mustUntil {
-			rec.mustUntil = now + life
+		} else {
+			// possibly accepted: the record's latest nonce is then this one
+			if rec.nonce != nonce {
+				rec.nonceUnsure = true
+			}
+			if now+life < rec.mustUntil {
+				rec.mustUntil = now + life
+			}
 		}
 		if now+life > rec.mayUntil {
 			rec.mayUntil = now + life
